@@ -338,6 +338,10 @@ def run(ctx):
                         rets = [p.retval for p in paths if p.returns and branch in p.guards() and (want_kw == "newdocs" or N.mk_not(isstr) in p.guards())]
                         ok = ok and rets == [("ctor", "Renamed", (SELF,), ((want_kw, o),))]
                 ctx.ob("C12.R2", "law", ok, "operator law `%s`: the operator returns the stated Renamed term" % text, key=key, loc=loc)
+                from . import C18 as _C18
+                if not getattr(ctx, "_renamed_init_done", False):
+                    ctx._renamed_init_done = True
+                    _C18.renamed_init(ctx, "C12.R2")          # ... and Renamed(x, newname=n) really carries the name n
                 continue
             if len(sides) > 2 or (lname and lname.startswith("Int24")) or (lhs.startswith("ByteSwapped")):
                 red = [reduce_aliases(M, t, sing, None) for t in terms]
